@@ -176,6 +176,12 @@ def download(
     licenses = {_strip_plus_from_identifier(lic) for lic in licenses}
     return_code = 0
     for lic in licenses:
+        # The identifier becomes a file name. Something with a path separator
+        # in it is no identifier, and would be written who knows where.
+        if Path(lic).name != lic:
+            _print_incorrect_spdx_identifier(lic, out=sys.stdout)
+            return_code = 1
+            continue
         destination: Path = output  # type: ignore
         if destination is None:
             destination = _path_to_license_file(lic, obj.project)
